@@ -14,13 +14,102 @@ import (
 	abci "github.com/tendermint/tendermint/abci/types"
 	"pgregory.net/rapid"
 
+	"github.com/Oneledger/protocol/action"
 	"github.com/Oneledger/protocol/data/governance"
+	"github.com/Oneledger/protocol/serialize"
 
 	"verif/hist"
 	"verif/run"
 	"verif/sim"
 	"verif/txgen"
 )
+
+// Exclusion tag of the open finding "the fee-option update function sets the process-wide fee
+// option also on the CheckTx path" (replays/C07/kf-checked-finalize-sets-fee-option.json): while it
+// is open no config-update proposal changes feeOption.*, so a checked PROPOSAL_FINALIZE cannot reach it.
+const exclFeeOpt = "C07:checktx-finalize-sets-fee-option"
+
+// forge returns a variant of tx with identical RawTx whose first signature entry is tampered:
+// how = 0 flips a bit of the signature bytes, 1 replaces them by a constant pattern, 2 puts
+// another account's public key next to the original signature bytes.
+func forge(tx txgen.Tx, how int, other *sim.User) (txgen.Tx, bool) {
+	var stx action.SignedTx
+	if err := serialize.GetSerializer(serialize.NETWORK).Deserialize(tx.Bytes, &stx); err != nil || len(stx.Signatures) == 0 || len(stx.Signatures[0].Signed) == 0 {
+		return tx, false
+	}
+	sig := append([]byte{}, stx.Signatures[0].Signed...)
+	switch how {
+	case 0:
+		sig[len(sig)/2] ^= 0x04
+		stx.Signatures[0].Signed = sig
+	case 1:
+		for i := range sig {
+			sig[i] = byte(0x5a + i)
+		}
+		stx.Signatures[0].Signed = sig
+	default:
+		if other == nil || other.Pub.KeyType != stx.Signatures[0].Signer.KeyType {
+			sig[0] ^= 0x80
+			stx.Signatures[0].Signed = sig
+		} else {
+			stx.Signatures[0].Signer = other.Pub
+		}
+	}
+	b, err := serialize.GetSerializer(serialize.NETWORK).Serialize(stx)
+	if err != nil {
+		return tx, false
+	}
+	return txgen.Tx{Bytes: b, Kind: tx.Kind + "#forged", Tags: []string{"forged-signature"}, Signers: tx.Signers}, true
+}
+
+// validatorOf returns the validatorAddress member of a staking transaction's payload.
+func validatorOf(tx txgen.Tx) string {
+	var raw struct {
+		Data []byte `json:"data"`
+	}
+	if json.Unmarshal(tx.Bytes, &raw) != nil {
+		return ""
+	}
+	var m struct {
+		ValidatorAddress string
+	}
+	_ = json.Unmarshal(raw.Data, &m)
+	return m.ValidatorAddress
+}
+
+// applyExclusions replaces delivered transactions that known findings of other properties exclude:
+// STAKE:zero-power-record (C11: a STAKE to a record of power 0 is lost when the block end deletes
+// the record; the validator later gets negative power and the fee distribution kills the process).
+func applyExclusions(h *run.H, g *hist.Gen, txs []txgen.Tx) []txgen.Tx {
+	var zero map[string]bool
+	for i, tx := range txs {
+		if tx.Kind != "STAKE" {
+			continue
+		}
+		if zero == nil {
+			zero = map[string]bool{}
+			for _, r := range g.W.ValRecs() {
+				if r.Power <= 0 {
+					zero[r.Address.String()] = true
+				}
+			}
+		}
+		if zero[validatorOf(tx)] && h.Excluded("STAKE:zero-power-record") {
+			txs[i] = g.Send()
+		}
+	}
+	return txs
+}
+
+// negativePower reports a committed validator record with negative power (the next fee distribution calls logger.Fatal).
+func negativePower(w *hist.World) bool {
+	for _, r := range w.ValRecs() {
+		if r.Power < 0 {
+			return true
+		}
+	}
+	return false
+}
 
 func TestMain(m *testing.M) {
 	run.Quiet()
@@ -158,6 +247,7 @@ func execute(h *run.H, tr *hist.Trace, draw func(w *hist.World) ([]hist.Step, []
 		}
 		b := w.C.MakeBlock(*blk.Spec)
 		ntx := len(b.Txs)
+		finalizeMidBlock := false // accepted CheckTx(PROPOSAL_FINALIZE) between this BeginBlock and the diverging DeliverTx
 		doChecks := func(at string) bool {
 			for _, c := range inj[at] {
 				r := checked.CheckTx(c.Tx)
@@ -181,6 +271,9 @@ func execute(h *run.H, tr *hist.Trace, draw func(w *hist.World) ([]hist.Step, []
 					}
 					if isGovKind(c.TxKind) {
 						*curGov = true
+					}
+					if c.TxKind == "PROPOSAL_FINALIZE" && (at == "after-begin" || strings.HasPrefix(at, "after-tx:")) {
+						finalizeMidBlock = true
 					}
 				} else {
 					st.feats["rejected@"+bc]++
@@ -251,6 +344,8 @@ func execute(h *run.H, tr *hist.Trace, draw func(w *hist.World) ([]hist.Step, []
 			class := "other"
 			if staleGov {
 				class = "stale-gov-check-state-at-begin"
+			} else if finalizeMidBlock && strings.Contains(d, "minimal fee") {
+				class = "checktx-finalize-sets-fee-option"
 			}
 			diff := sim.DiffDumps(plain.DumpMap(), checked.DumpMap())
 			if len(diff) > 8 {
@@ -341,6 +436,15 @@ func TestC07(t *testing.T) {
 	defer h.Finish()
 	h.SetRule("history x CheckTx schedule on a twin pair: one replica gets 0-3 CheckTx calls at every ABCI boundary (before/after BeginBlock, after every DeliverTx, after EndBlock, after Commit) drawn from the block's own future transactions, fresh generator transactions, invalid bytes and state-changing kinds (PROPOSAL_FINALIZE, EXPIRE_VOTES, ETH_REPORT_FINALITY_MINT, PROPOSAL_VOTE, STAKE/UNSTAKE, OLVM); the twin gets none; non-trivial = at least one injected CheckTx was accepted (code 0) and wrote to the check state (judged from its response: a fee was charged, i.e. GasUsed > 0, or the free public kinds returned the event of their writing branch) at a boundary that is directly followed by a block hook (after Commit / before BeginBlock, or after the last DeliverTx before EndBlock); distinct by trace hash")
 	maxBlocks := h.Scale(22, 40)
+	if h.Excluded(exclFeeOpt) {
+		var keep []string
+		for _, c := range hist.ConfigUpdates {
+			if !strings.HasPrefix(c, "feeOption.") {
+				keep = append(keep, c)
+			}
+		}
+		hist.ConfigUpdates = keep
+	}
 	rapid.Check(t, func(rt *rapid.T) {
 		p := hist.GenParams(rt, fmt.Sprint(h.Seed))
 		u := hist.NewU(rt)
@@ -355,6 +459,8 @@ func TestC07(t *testing.T) {
 		var g *hist.Gen
 		blocks := 0
 		var script [][]txgen.Tx
+		// forged twins waiting for a later block: the valid original was already checked on the replica under test
+		var forgedLater []txgen.Tx
 		out, st := execute(h, tr, func(w *hist.World) ([]hist.Step, []txgen.Tx, bool) {
 			if g == nil {
 				g = &hist.Gen{W: w, T: rt, Hostile: 3, Strange: 8, Kinds: hist.Profiles[prof], Excl: h.Excluded, Seen: map[string]int{}, TagsN: map[string]int{}}
@@ -362,8 +468,16 @@ func TestC07(t *testing.T) {
 			if blocks >= nb {
 				return nil, nil, false
 			}
+			if negativePower(w) && (h.Excluded("STAKE:zero-power-record") || h.Excluded("ALLEGATION_VOTE:accused-not-elected")) {
+				return nil, nil, false // known findings of C11: the next fee distribution would kill the process
+			}
 			blocks++
-			txs := g.DrawTxs(4)
+			txs := applyExclusions(h, g, g.DrawTxs(4))
+			if len(forgedLater) > 0 {
+				at := u.N(len(txs)+1, "forgedat")
+				txs = append(txs[:at:at], append(append([]txgen.Tx{}, forgedLater...), txs[at:]...)...)
+				forgedLater = nil
+			}
 			if scripted {
 				if len(script) == 0 && u.N(3, "newscript") == 0 {
 					script = scriptProposal(rt, u, g)
@@ -399,6 +513,35 @@ func TestC07(t *testing.T) {
 			if len(txs) > 0 && u.N(5, "mempoolflow") == 0 {
 				for _, tx := range txs {
 					push("before-begin", tx)
+				}
+			}
+			// CheckTx of a valid transaction that is never delivered, and delivery (in this block after the check,
+			// or in the next block) of a twin with identical RawTx and a tampered first signature
+			if u.N(5, "forge") == 0 {
+				orig := g.Draw()
+				if u.N(2, "forgesend") == 0 {
+					orig = g.Send()
+				}
+				_, other := u.N(len(w.G.U.Users), "forgeother"), w.G.U.Users[u.N(len(w.G.U.Users), "forgeother2")]
+				if twin, ok := forge(orig, u.N(3, "forgehow"), other); ok {
+					if u.N(3, "forgelater") == 0 {
+						bnd := []string{"before-begin", "after-begin", "after-end", "after-commit"}[u.N(4, "forgebnd")]
+						push(bnd, orig)
+						forgedLater = append(forgedLater, twin)
+					} else {
+						j := u.N(len(txs)+1, "forgepos") // position of the twin in this block
+						// boundaries before position j: before-begin, after-begin, after-tx:0 .. after-tx:j-1
+						k := u.N(j+2, "forgechk")
+						bnd := "before-begin"
+						if k == 1 {
+							bnd = "after-begin"
+						} else if k >= 2 {
+							bnd = fmt.Sprintf("after-tx:%d", k-2)
+						}
+						txs = append(txs[:j:j], append([]txgen.Tx{twin}, txs[j:]...)...)
+						spec = g.DrawEnv(txs)
+						push(bnd, orig)
+					}
 				}
 			}
 			add("before-begin", -1)
